@@ -327,6 +327,19 @@ void check_spline_invariants(const Sp<k> &s, std::vector<Violation> &out,
          w + ": " + std::to_string(ni) + " intervals but " +
              std::to_string(nc) + " coefficient arrays");
   }
+  // C09: a coefficient that was never initialised (or already destroyed) and
+  // is stored in a live spline will be used by the next evaluation; report it
+  // at the operation that produced it
+  for (const auto &a : s.getCoefficients())
+    for (const auto &x : a)
+      if (!x.tag_valid()) {
+        Violation v;
+        v.prop = "C09";
+        v.cls = x.raw_tag() == sim::TAG_DEAD ? "destroyed-coefficient-stored" : "uninitialised-coefficient-stored";
+        v.detail = w + ": a stored coefficient was never initialised";
+        out.push_back(v);
+        return;
+      }
 }
 template void check_spline_invariants<0>(const Sp<0> &, std::vector<Violation> &, const char *);
 template void check_spline_invariants<1>(const Sp<1> &, std::vector<Violation> &, const char *);
